@@ -126,7 +126,8 @@ function getPrepareStackTrace (originalPrepareStackTrace) {
         }
         const { path, line, column } = getSourcePathAndLineFromSourceMaps(filename, originalLine, originalColumn)
         if (path !== filename || line !== originalLine || column !== originalColumn) {
-          return stackFrame.replace(`${filename}:${originalLine}:${originalColumn}`, `${path}:${line}:${column}`)
+          // a replacer function: `$` sequences in the path must not be read as replacement patterns
+          return stackFrame.replace(`${filename}:${originalLine}:${originalColumn}`, () => `${path}:${line}:${column}`)
         }
         return stackFrame
       })
